@@ -152,7 +152,8 @@ func main() {
 			cfg.TimeoutMs = 60000
 		}
 	}
-	cfg.ZTimeoutMs = cfg.TimeoutMs / 4
+	cfg.ZTimeoutMs = cfg.TimeoutMs
+	cfg.CTimeoutMs = cfg.TimeoutMs / 5
 	if cfg.CrossCheck == "" {
 		cfg.CrossCheck = "sample"
 		if cfg.Tier == "thorough" {
